@@ -107,7 +107,9 @@ def unregisterShapeAtomic : Prop :=
     Lookupd.callsUnregister =
       ["getTopicChan", "RemoveProducerAndPrune", "FindRegistrations", "RemoveProducer", "RemoveProducerAndPrune"] ∧
     Lookupd.pruneStmts =
-      ["assign producers, ok := r.registrationMap[k]", "assign left := len(producers)", "if prune && left == 0"]
+      ["assign producers, ok := r.registrationMap[k]", "assign left := len(producers)", "if prune && left == 0"] ∧
+    -- claim audit 11, C14 item 2: the remove AND the prune (the two `delete`s) are under ONE `Lock()`/`Unlock()`
+    Lookupd.callsRemoveProducerAndPrune = ["Lock", "Unlock", "delete", "delete"]
 
 instance : Decidable unregisterShapeAtomic := by unfold unregisterShapeAtomic; infer_instance
 
